@@ -147,7 +147,9 @@ def main(argv=None):
 
     # 3b. the anchored source is not the source the model was written against: explore deeper
     #     even though the ordinary pass found nothing (never a violation by itself)
-    changed_src = core.changed_anchor_files(prop)
+    # (the property's own anchored files first; any other module of the package counts as well - helpers such as
+    #  util/sqla_compat.py or a dialect module decide behaviour the anchored code relies on)
+    changed_src = core.changed_anchor_files(prop) or core.changed_anchor_files("_package")
     escalated = False
     if changed_src and not new_failures and not searched and hasattr(mod, "search") and not os.environ.get("VERIF_NO_ESCALATE"):
         escalated = True
